@@ -145,7 +145,7 @@ def is_sym(v):
 
 # ---------------------------------------------------------------------------- schema
 INT_FIELDS = {'signal', 'priority', 'total_times', 'period', '$len', '$maxlen', 'qsize', 'unfinished',
-              'times_activated', 'maxsize', 'order', 'held', 'epoch'}
+              'times_activated', 'maxsize', 'order', 'held', 'epoch', 'highest_inner_signal'}
 BOOL_FIELDS = {'ignored', 'instrumented', 'live_spy', 'live_trace', 'spied_on', 'alive', 'daemon', 'flag',
                'hook', 'start', 'internal', 'recall', 'post_lifo', 'post_fifo', 'post_defer', 'deferred',
                'started', '_is_atomic'}
@@ -184,11 +184,17 @@ def heap_key(owner, field):
 def field_sort(f):
     if f in REF_OVERRIDES:
         return Ref
+    if f == '$okeys':
+        return z3.ArraySort(z3.IntSort(), StrV)
+    if f == '$ovals':
+        return z3.ArraySort(z3.IntSort(), z3.IntSort())
+    if f == '$oidx':
+        return z3.ArraySort(StrV, z3.IntSort())
     if '.' in f and not f.startswith('$'):
         f = f.rsplit('.', 1)[1]
-    if f == '$has':
+    if f in ('$has', '$json_has'):
         return z3.ArraySort(StrV, z3.BoolSort())
-    if f == '$map':
+    if f in ('$map', '$json_map'):
         return z3.ArraySort(StrV, Ref)
     if f in INT_FIELDS:
         return z3.IntSort()
@@ -664,6 +670,9 @@ class World:
         if name in src.classes:
             return SClass(name)
         if name in ('signals',):
+            obj = ctx.pyghost.get('signals_object')
+            if obj is not None:
+                return obj                      # the registry as an object (C25); elsewhere its contract is used
             return SModule('signals')
         if name in ('return_status',):
             return SModule('return_status')
@@ -680,6 +689,12 @@ class World:
             # X = SingletonDecorator(K)
             if isinstance(v, ast.Call) and isinstance(v.func, ast.Name) and v.func.id == 'SingletonDecorator':
                 return SClass('singleton:' + v.args[0].id)
+            if isinstance(v, ast.Call) and isinstance(v.func, ast.Name) and v.func.id in ('RLock', 'Lock') and not v.args:
+                lk = SRef(self.strobj('<module lock %s.%s>' % (mod, name)), 'RLock')
+                if ('module_lock', name) not in ctx.pyghost:
+                    ctx.pyghost[('module_lock', name)] = True
+                    ctx.assume(ctx.hget(lk, 'held') >= 0)       # hold count of the calling thread (re-entrant)
+                return lk
             try:
                 return ast.literal_eval(v)
             except Exception:
